@@ -66,8 +66,8 @@ func genSignCase(t *core.Tape, uniq string, mods []string) *signCase {
 			c.Input = []byte("Write-Host 'unique " + uniq + "'\r\n" + strings.Repeat("# padding\r\n", t.Choose(50, "ps-lines")))
 		}
 		if t.Chance(1, 3, "opus") {
-			c.Flags.Set("opus-name", "name-"+uniq)
-			c.Flags.Set("opus-url", "http://example.com/"+uniq)
+			c.Flags.Set("description", "name-"+uniq)
+			c.Flags.Set("desc-url", "http://example.com/"+uniq)
 		}
 	case "pgp":
 		c.PGP = true
